@@ -23,7 +23,9 @@ RULE = (
     'the right type. Non-trivial: a cut strictly inside BOM / charset rule / multi-byte sequence, or a charset name '
     'rewrite; distinct by (bytes, cuts).'
     ' The decoder class is also driven through its own iterdecode(), reused after reset() for another document, and rebuilt '
-    'from getstate()/setstate() between all chunks.'
+    'from getstate()/setstate() between all chunks; so is the encoder. force: bytes in one encoding decoded with ANOTHER '
+    'encoding given and force in {True, False}, one-shot, incrementally and through the stream reader, against the documented '
+    'rule (forced: the given encoding; not forced: an explicit BOM / @charset rule wins, else the given encoding).'
 )
 ASSUMPTIONS = [
     'Python standard codecs are the oracle for encode/decode of a given encoding',
@@ -376,6 +378,20 @@ def _check_chunk(case, ctx, found):
     if b''.join(parts) != exp_bytes:
         raise Violation('chunking:incrementalencoder', f'{tchunks!r} {kw} -> {parts!r}, one-shot {exp_bytes!r}')
 
+    # --- the encoder rebuilt from, and given back, its own state between all chunks
+    with lib('encoder-state'):
+        ie = codecs.getincrementalencoder('css')(**kw)
+        parts = []
+        for i, c in enumerate(tchunks):
+            parts.append(ie.encode(c, i == len(tchunks) - 1))
+            if i < len(tchunks) - 1:
+                st_ = ie.getstate()
+                if i % 2:
+                    ie = codecs.getincrementalencoder('css')(**kw)
+                ie.setstate(st_)
+    if b''.join(parts) != exp_bytes:
+        raise Violation('chunking:encoder-getstate-setstate', f'{tchunks!r} {kw} -> {parts!r}, one-shot {exp_bytes!r}')
+
     # --- incremental decoder
     dkw = {'encoding': used}
     for label, k in (('given', dkw), ('auto', {})):
@@ -469,9 +485,72 @@ def _check_chunk(case, ctx, found):
              {'text': t, 'enc': enc, 'given': given, 'byte_chunks': [c.hex() for c in bchunks], 'text_chunks': tchunks})
 
 
+# --------------------------------------------------------------------------- an encoding given together with force=False
+
+
+@st.composite
+def force_case(draw):
+    t, enc = draw(text_enc())
+    return {'text': t, 'enc': enc, 'rewrite': draw(st.booleans()), 'other': draw(st.sampled_from(sorted(ENC) + ['latin-1', 'utf-8', 'utf-16-le', 'koi8-r'])),
+            'force': draw(st.booleans()), 'cuts_b': sorted(set(draw(st.lists(st.integers(0, 40), max_size=5))))}
+
+
+def check_force(case, ctx):
+    """decode(bytes, encoding=other, force=...): with force the given encoding is used whatever the bytes say, without it an explicit
+    BOM / @charset in the bytes wins and the given encoding is the fallback; one-shot, incremental and stream decoders agree"""
+    t, enc, other, force = case['text'], case['enc'], case['other'], case['force']
+    try:
+        data = (rewrite(t, enc) if case['rewrite'] else t).encode(enc)
+    except (UnicodeEncodeError, LookupError):
+        ctx.event('domain:not-encodable')
+        return
+    det, explicit = ref_detect(data, True)
+    use = other if (force or not explicit) else det
+    if canon(use).startswith('unknown:') or canon(use) == 'css':
+        ctx.event('domain:unknown-encoding-named')
+        return
+    if canon(use) in ('utf-16', 'utf-32') and not data.startswith((b'\xff\xfe', b'\xfe\xff', b'\x00\x00\xfe\xff')):
+        # Python itself disagrees here: one-shot decoding assumes the native byte order, the incremental decoders raise
+        ctx.event('domain:utf-16/32 without BOM')
+        return
+    try:
+        want = rewrite(data.decode(use), use)
+    except UnicodeDecodeError:
+        want = None
+    kw = {'encoding': other, 'force': force}
+    bchunks = split(data, case['cuts_b'])
+
+    def attempt(what, call):
+        try:
+            with lib(what, expect=(UnicodeDecodeError,)):
+                return call()
+        except UnicodeDecodeError:
+            return None
+
+    got = attempt('decode-force', lambda: codecs.getdecoder('css')(data, **kw)[0])
+    if got != want:
+        raise Violation('force:one-shot', f'decode({data!r}, encoding={other!r}, force={force}) = {got!r}, expected {want!r} (decoded as {use})')
+    inc = attempt('incremental-force', lambda: ''.join(
+        [d.decode(c, i == len(bchunks) - 1) for d in [codecs.getincrementaldecoder('css')(**kw)] for i, c in enumerate(bchunks)]))
+    if inc != want:
+        raise Violation('force:incremental', f'{[c.hex() for c in bchunks]} encoding={other!r} force={force} -> {inc!r}, one-shot {want!r}')
+    schunks = [c for c in bchunks if c]
+    rd = attempt('reader-force', lambda: codecs.getreader('css')(ChunkStream(schunks), **kw).read())
+    # (a stream that ends inside a character is not an error for a stream reader: the codecs API has no final flag)
+    if rd != want and want is not None:
+        open_end = want is not None and rd is not None and want.startswith(rd) and (undetermined_text(want) or ref_detect(data, False)[0] is None)
+        if not open_end:
+            raise Violation('force:streamreader', f'{[c.hex() for c in schunks]} encoding={other!r} force={force} -> {rd!r}, one-shot {want!r}')
+        ctx.event('stream-end-undetermined (listed finding F07-2)')
+    ctx.event('force=%s explicit=%s' % (force, explicit))
+    ctx.case([data.hex(), other, force, case['cuts_b']], canon(use) != canon(enc) or (explicit and not force),
+             {'bytes': data.hex(), 'given': other, 'force': force, 'decoded_as': use})
+
+
 SUBS = [
     Sub('detect', check_detect, enumerate=detect_cases, shards_quick=8, shards_thorough=16),
     Sub('udetect', check_udetect, enumerate=udetect_cases, shards_quick=1, shards_thorough=1),
     Sub('roundtrip', check_roundtrip, strategy=rt_case(), quick=20000, thorough=800000, shards_quick=8),
     Sub('chunk', check_chunk, strategy=rt_case(), quick=30000, thorough=1200000, shards_quick=8),
+    Sub('force', check_force, strategy=force_case(), quick=20000, thorough=600000, shards_quick=8),
 ]
